@@ -306,7 +306,8 @@ struct ArrayCk {
     C& c = *b.c; bool grow = c.size() + o.ref.n > c.capacity() || (!c._begin.item && o.ref.n);
     setctxf("Array.append(Array)/%s%s", o.ref.n ? "" : "empty-arg/", grow ? "growing" : "in-place"); hist.addf("append(other array of %lu)   [size %lu capacity %lu]\n", (unsigned long)o.ref.n, (unsigned long)c.size(), (unsigned long)c.capacity());
     if (grow) cnt("growths");
-    c.append(*o.c); for (size_t i = 0; i < o.ref.n; ++i) b.ref.push(o.ref[i]); cnt("op_append_array");
+    if (&o == &b) { setctxf("Array.append(Array)/arg=self/%s", grow ? "growing" : "in-place"); cnt("op_append_array_self"); }
+    size_t n0 = o.ref.n; c.append(*o.c); for (size_t i = 0; i < n0; ++i) { SEnt e = o.ref[i]; b.ref.push(e); } cnt("op_append_array");
   }
   void opRemoveIndex(Box& b, size_t idx) {
     size_t n = b.ref.n; setctxf("Array.remove(index)/%s", idx >= n ? "out-of-range" : idx == 0 ? "first" : idx + 1 == n ? "last" : "middle"); hist.addf("remove(index %lu)   [size %lu]\n", (unsigned long)idx, (unsigned long)n);
@@ -359,7 +360,8 @@ static void arrayHistory(ArrayCk& ck, Rng& r, long idx) {
     switch (kind) {
     case 0: ck.opAppend(m, k, uid++); break;
     case 1: { size_t room = m.c->capacity() - n; size_t c2; switch (r.below(5)) { case 0: c2 = 0; break; case 1: c2 = room; break; case 2: c2 = room + 1; break; case 3: c2 = room ? room - 1 : 1; break; default: c2 = r.below(9); break; } if (c2 > 40) c2 = 40; if (n > 300 && c2 > 2) c2 = 2; ck.opAppendBlock(m, r, c2, k, uid); break; }
-    case 2: if (n + other.ref.n <= 300) ck.opAppendArray(m, other); break;
+    case 2: if (r.chance(1, 5)) { if (2 * n <= 300) ck.opAppendArray(m, m); }   // the array itself as argument (also part of C04)
+            else if (n + other.ref.n <= 300) ck.opAppendArray(m, other); break;
     case 3: { size_t i = r.chance(1, 5) ? n + r.below(3) : n ? (r.chance(1, 4) ? 0 : r.chance(1, 3) ? n - 1 : r.below(n)) : 0; ck.opRemoveIndex(m, i); removed = removed || i < n; break; }
     case 4: if (n) { size_t i = r.chance(1, 4) ? 0 : r.chance(1, 3) ? n - 1 : r.below(n); ck.opRemoveIt(m, i); removed = true; } break;
     case 5: if (n) { ck.opRemoveEnd(m, true); removed = true; } break;
